@@ -100,6 +100,11 @@ func (n *NetWorld) OnProbe(w *Wire, sink int, raw []byte, p *Probe, perr error, 
 			data, tag = n.destReply(fs, p, h)
 		} else {
 			ra := routerAddr(p.IP.V6, addrKindFor(sc.AddrKind, ttl), fs.idx, ttl)
+			if x, ok := sc.Addrs[ttl]; ok {
+				if a, err := netip.ParseAddr(x); err == nil && a.Is6() == p.IP.V6 {
+					ra = a
+				}
+			}
 			data = icmpError(ra, p.IP.Src, h.Form, quoteOf(raw, h.Form))
 			tag = Tag{Class: "genuine", CreditTTL: ttl, Responder: ra.String(), Form: h.Form.String()}
 			if h.Form.ICMPCode != 0 {
